@@ -395,23 +395,38 @@ func (a *A) ruleLeftmostFirst() {
 	run := a.Named("cep", "run")
 	startSeq := a.FieldOf(run, "startSeq")
 	construct := fname(fn) + "#leftmost-first"
-	var ordered *ssa.BinOp
-	allInstrs(fn, func(in ssa.Instruction) {
-		bo, ok := in.(*ssa.BinOp)
-		if !ok {
-			return
-		}
-		switch bo.Op {
-		case token.LSS, token.LEQ, token.GTR, token.GEQ:
-		default:
-			return
-		}
-		for _, v := range []ssa.Value{bo.X, bo.Y} {
-			if t := TermOf(v, nil); t.Kind == "field" && t.Field == startSeq {
-				ordered = bo
+	// the ordered comparison of a start with the survivors' startSeq: in emitGreedy itself, or in a
+	// same-package helper it calls (the call is then the controlling instruction)
+	hasOrderedCmp := func(f *ssa.Function) ssa.Instruction {
+		var found ssa.Instruction
+		allInstrs(f, func(in ssa.Instruction) {
+			bo, ok := in.(*ssa.BinOp)
+			if !ok {
+				return
 			}
-		}
-	})
+			switch bo.Op {
+			case token.LSS, token.LEQ, token.GTR, token.GEQ:
+			default:
+				return
+			}
+			for _, v := range []ssa.Value{bo.X, bo.Y} {
+				if t := TermOf(v, nil); t.Kind == "field" && t.Field == startSeq {
+					found = in
+				}
+			}
+		})
+		return found
+	}
+	var ordered ssa.Instruction = hasOrderedCmp(fn)
+	if ordered == nil {
+		allInstrs(fn, func(in ssa.Instruction) {
+			if callee := staticCallee(in); callee != nil && callee != emitOne && callee.Pkg == fn.Pkg && callee.Blocks != nil && hasOrderedCmp(callee) != nil {
+				if _, isCall := in.(*ssa.Call); isCall {
+					ordered = in
+				}
+			}
+		})
+	}
 	calls := callsTo(fn, emitOne)
 	if len(calls) == 0 {
 		a.Und(construct, fn.Pos(), "emitGreedy does not call emitOne")
